@@ -223,7 +223,26 @@ def tiling_identities(ctx):
     ctx.ob(f, f'start_byte = {chunk} * (part_number - 1)', ok, f'found {norm(sbe)}')
     ok = len(cs) == 1 and sbe is not None and norm(kwarg(cs[0], 'part_size')) == chunk
     ctx.ob(f, f'part handle opened at start_byte with part_size={chunk}', ok, 'the part body must start at its own offset')
+    # the size that bounds the last part is the planned transfer size (the size the part count was computed from),
+    # handed through the part-handle helper unchanged - not a fresh look at the file
+    ffs = q.resolve_local(f, q.argn(cs[0], 'full_file_size')) if len(cs) == 1 and q.argn(cs[0], 'full_file_size') is not None else None
+    ctx.ob(f, 'full_file_size=transfer_future.meta.size is what bounds the part bodies', ffs is not None and norm(ffs) == 'transfer_future.meta.size',
+           'parts are planned from meta.size: bounding them by another size makes the last part overrun or fall short of the plan')
+    h = ctx.func('upload.UploadFilenameInputManager._get_upload_part_fileobj_with_full_size')
+    hr = [x for x in own_nodes(h.node) if isinstance(x, ast.Return) and isinstance(x.value, ast.Tuple) and len(x.value.elts) == 2]
+
+    def _is_given_full_size(e):
+        e = q.resolve_local(h, e)
+        kw = h.node.args.kwarg.arg if h.node.args.kwarg else None
+        return (isinstance(e, ast.Subscript) and isinstance(e.slice, ast.Constant) and e.slice.value == 'full_file_size' and isinstance(e.value, ast.Name) and e.value.id == kw) \
+            or (isinstance(e, ast.Name) and e.id == 'full_file_size' and e.id in h.params + h.kwonly)
+    ctx.ob(h, 'returns (handle at start_byte, the full_file_size it was given)', len(hr) >= 1 and all(_is_given_full_size(x.value.elts[1]) for x in hr),
+           'the planned size must reach the chunk reader unchanged')
     cr = [c for c in own_calls(f.node) if (dotted(c.func) or '').endswith('open_file_chunk_reader_from_fileobj')]
+    fsz = q.argn(cr[0], 'full_file_size', 2) if len(cr) == 1 else None
+    two = cs[0]._parent.targets[0] if len(cs) == 1 and isinstance(cs[0]._parent, ast.Assign) and isinstance(cs[0]._parent.targets[0], ast.Tuple) else None
+    ctx.ob(f, 'the chunk reader gets the full size returned by the part-handle helper', fsz is not None and two is not None and len(two.elts) == 2 and norm(fsz) == norm(two.elts[1]),
+           'the bound of the part bodies must be the planned size')
     ctx.ob(f, f'chunk reader limited to chunk_size={chunk}', len(cr) == 1 and norm(q.argn(cr[0], 'chunk_size', 1)) == chunk, 'each part body must be limited to the part size')
     npc = [c for c in own_calls(f.node) if (dotted(c.func) or '').endswith('_get_num_parts')]
     ctx.ob(f, f'num_parts = _get_num_parts(transfer_future, {chunk})', len(npc) == 1 and norm(q.argn(npc[0], 'part_size', 1)) == chunk, 'the part count must use the same chunk size as the offsets')
